@@ -362,6 +362,7 @@ def drainCmd (st : St) : List String → St × String
         ({ st with drain := drainProgress d1 }, s!"backend admitted={q.admitted} inforce={d.policy}")
       | none => (st, "bad-op")
     | none => (st, "bad-op")
+  | ["wait"] => (st, "ok")   -- callers give up after their timeout; the requests they sent keep their place
   | ["state"] =>
     let d := st.drain
     (st, s!"upd={if d.upd == .idle then "idle" else "waiting"} policy={d.policy} active={(Drain.actives d).length}")
